@@ -224,3 +224,120 @@ def options_codec(R, ctx, rid):
         ok = got[0] in vs
         R.ob(rid, w, "key:" + key, ok, "`%s` is written as Any::%s, read as Any::%s" % (key, got[0], sorted(vs)) if ok else
              "`%s` is written as Any::%s but the reader expects Any::%s and silently takes its default for anything else" % (key, got[0], sorted(vs)), got[1])
+
+
+def text_length_unit(R, ctx, rid):
+    Y = ctx.yrs
+    R.rule(rid, "R-PROV a text measures itself in the configured unit: Text::len answers Branch.content_len (bytes or UTF-16 units, "
+                "as the document is configured), and no default method of the Text trait — whose indexes are all in that unit — "
+                "reads the branch's block length (Branch::len / Branch.block_len, always UTF-16 units): Text::push appends at "
+                "Text::len. The two lengths agree for ASCII, so an append computed from the block length lands inside the text as "
+                "soon as it holds a multi-byte character (expected count zero; Array::len and XmlFragment::len, which rightly read "
+                "the block length, are the positive control)")
+    ln = [fn for p, fn in Y.fns.items() if re.match(r"^yrs::types::text::Text::len$", p)]
+    if not ln:
+        raise AnchorLost("yrs::types::text::Text::len")
+    v = FnView(ln[0])
+    ret = simp_deep(v.terms.local(0, 8))
+    R.ob(rid, ln[0], "len", ret[0] == "field" and ret[1].endswith("Branch.content_len"), "Text::len = %s" % sshow(ret, 4))
+    n = 0
+    offenders = []
+    for p, fn in sorted(Y.fns.items()):
+        if not re.match(r"^yrs::types::text::Text::\w+(::\{closure#\d+\})?$", p) or not fn.mir:
+            continue
+        n += 1
+        for cs in fn.calls_to("yrs::branch::Branch::len"):
+            offenders.append((fn, cs.loc()))
+        for i, j, st in fn.stmts():
+            rv = st["rv"]
+            pl = (rv.get("use") or {}).get("c") if isinstance(rv.get("use"), dict) else None
+            if isinstance(pl, dict) and F.place_has_field(pl, "Branch.block_len"):
+                offenders.append((fn, "%s:%s" % (fn.file, st["line"])))
+    R.floor(rid, "default methods of the Text trait scanned", n, 8)
+    for fn, loc in offenders:
+        R.ob(rid, fn, "block-length", False, "a Text method reads the block length (UTF-16 units) where text indexes are in the configured unit", loc)
+    if not offenders:
+        R.ob(rid, ln[0], "no-block-length", True, "no default method of the Text trait reads the block length (%d methods)" % n)
+    # positive control: the matcher sees Branch::len where it belongs
+    ctrl = [p for p, fn in Y.fns.items() if fn.mir and re.search(r"types::(array::Array|xml::XmlFragment)::len$", p) and
+            (fn.calls_to("yrs::branch::Branch::len") or any(isinstance((st["rv"].get("use") or {}).get("c") if isinstance(st["rv"].get("use"), dict) else None, dict) and
+                                                            F.place_has_field((st["rv"].get("use") or {}).get("c"), "Branch.block_len") for i, j, st in fn.stmts()))]
+    R.floor(rid, "positive control: sequence types whose len reads the block length", len(ctrl), 1)
+    push = [fn for p, fn in Y.fns.items() if p == "yrs::types::text::Text::push"]
+    if push:
+        pv = FnView(push[0])
+        ins = [c for c in push[0].calls() if re.search(r"Text::insert$", c.name)]
+        ok = bool(ins) and all(term_has_call(simp_deep(pv.arg(c, 2, 10)), "re:Text::len$") for c in ins)
+        R.ob(rid, push[0], "push-at-len", ok, "push inserts at Text::len: %s" % ok)
+
+
+def read_honours_offset(R, ctx, rid):
+    Y = ctx.yrs
+    fn = Y.fn("yrs::block::ItemContent::read")
+    R.rule(rid, "R-TABLE every multi-element content kind honours the read offset: ItemContent::read(offset, buf) — behind iteration "
+                "and get(i), which read one element at a time at increasing offsets, while to_json reads whole blocks at offset 0 — "
+                "uses its `offset` parameter in the arm of every kind that can hold more than one element (Any, JSON, String; from "
+                "the content tables): an arm that ignores it returns the first element again for every position")
+    params = fn.sig.get("params", [])
+    if "offset" not in params:
+        raise AnchorLost("ItemContent::read has no `offset` parameter: %s" % params)
+    off = params.index("offset") + 1
+    kinds = set()
+    sites = 0
+    for i, b in enumerate(fn.blocks):
+        if b.get("cleanup"):
+            continue
+        used = False
+        def is_off(o):
+            return isinstance(o, dict) and ("c" in o or "m" in o) and mir_root(fn, o) == ("local", off)
+        for st in b["s"]:
+            for key in ("a", "b", "use", "cast"):
+                if is_off(st["rv"].get(key)):
+                    used = True
+            for o in st["rv"].get("ops", []) or []:
+                if is_off(o):
+                    used = True
+        t = b["t"]
+        for o in t.get("args", []) or []:
+            if is_off(o):
+                used = True
+        if used:
+            ks, n_sw = kinds_reaching(Y, fn, i, place_hint=None)
+            if n_sw and len(ks) < 5:
+                kinds |= ks
+                sites += 1
+    R.floor(rid, "uses of the offset in ItemContent::read", sites, 1)
+    need = {"Any", "JSON", "String"}
+    R.ob(rid, fn, "offset-arms", need <= kinds, "the offset is used in the arms of %s" % sorted(kinds) if need <= kinds else
+         "the offset is used in the arms of %s only; %s ignore it: reads that start inside such a block return its first elements" % (sorted(kinds), sorted(need - kinds)))
+
+
+def fresh_per_round(R, ctx, rid):
+    Y = ctx.yrs
+    fn = Y.fn("yrs::transaction::TransactionMut::call_observers")
+    v = FnView(fn)
+    R.rule(rid, "R-PROV the weak-link guard of event bubbling is per changed type: TransactionMut::call_observers hands every call "
+                "of call_type_observers a `visited` set created inside the loop round of that changed type (`HashSet::default()` / "
+                "`new()` defined in the body of the loop that contains the call). The set stops one walk from entering the same link "
+                "twice; shared between the walks of different changed types it stops the later walks at the first link an earlier "
+                "one passed, and the deep observers behind that link never receive those events")
+    calls = fn.calls_to("yrs::transaction::TransactionMut::call_type_observers")
+    R.floor(rid, "call_type_observers calls in call_observers", len(calls), 1)
+    for cs, site in ordinal_sites(calls):
+        # the &mut HashSet argument: the one whose type mentions HashSet
+        tys = cs.t.get("arg_tys", [])
+        idx = [k for k, t in enumerate(tys) if re.match(r"^&mut std::collections::(HashSet|BTreeSet)<", str(t))]
+        if not idx:
+            R.ob(rid, fn, "visited:" + site, False, "no HashSet argument found", cs.loc())
+            continue
+        d = mir_def(fn, cs.args[idx[0]])
+        fresh = d is not None and d[0] == "call" and re.search(r"::(default|new|with_capacity)$", d[1].name) is not None
+        nexts = [c for c in fn.calls() if re.search(r"Iterator>?::next$", c.name) and cs.bb in loop_blocks(fn, c.bb)]
+        inner = None
+        for c in nexts:   # innermost loop containing the call
+            if inner is None or len(loop_blocks(fn, c.bb)) < len(loop_blocks(fn, inner.bb)):
+                inner = c
+        in_round = fresh and inner is not None and d[1].bb in loop_blocks(fn, inner.bb)
+        R.ob(rid, fn, "visited:" + site, bool(in_round), "a fresh set per changed type" if in_round else
+             "the `visited` set handed to call_type_observers is %s: it is shared between the walks of different changed types" %
+             ("created outside the loop round" if fresh else "not created here"), cs.loc())
